@@ -5,7 +5,7 @@ the implementation - every bit of the binary body, every truncation length, exte
 header rewrites, credentials minted under a second key - on the toy build (byte-exact vs the model) and the real build (oracle)."""
 import json
 from ..vlib import leanlib, cbuild, judge
-from ..gen import g_dec, g_unpack
+from ..gen import g_dec, g_unpack, g_stages
 from . import _cred_common as cc
 from . import _cred_checks as K
 
@@ -186,6 +186,9 @@ def run(ctx):
     # the model's parsers are proved to be the parsers of dec.c (translated by the K+cursor translator)
     if g_unpack.generate(ctx):
         leanlib.check_props(ctx, "UnpackRef")
+    # dec_validate_mac / dec_decrypt translated with their primitive calls as events: what is MAC'd and compared, deferred padding failure
+    if g_stages.generate(ctx):
+        leanlib.check_props(ctx, "C02Stages")
     leanlib.check_props(ctx, "C02")
     drv = leanlib.driver(ctx)
     htoy = cc.build_toy(ctx)
